@@ -3,6 +3,7 @@
 package main
 
 import (
+	"context"
 	"fmt"
 	"math/rand"
 	"sync"
@@ -25,6 +26,18 @@ func c03NewMsg(ctor int) *message.Message {
 		src.Metadata.Set("k", "v")
 		src.Nack() // Copy must not carry the settlement over
 		return src.Copy()
+	case 3: // a message whose context is already cancelled: settling it must behave like any other
+		m := message.NewMessage("u", []byte("p"))
+		ctx, cancel := context.WithCancel(context.Background())
+		cancel()
+		m.SetContext(ctx)
+		return m
+	case 4: // ... or whose deadline has passed
+		m := message.NewMessage("u", []byte("p"))
+		ctx, cancel := context.WithDeadline(context.Background(), time.Now().Add(-time.Second))
+		_ = cancel
+		m.SetContext(ctx)
+		return m
 	default:
 		return &message.Message{}
 	}
@@ -145,7 +158,7 @@ func cmdC03Seq(args []string) error {
 	nrand := fs.Int("random", 200, "number of random longer sequences")
 	fs.Parse(args)
 	res := c03SeqOut{MaxLen: *maxlen}
-	for ctor := 0; ctor < 3; ctor++ {
+	for ctor := 0; ctor < 5; ctor++ {
 		var packed []uint64
 		c03Enumerate(*maxlen, func(ops []int) {
 			packed = append(packed, c03Pack(c03RunSeq(ctor, ops)))
@@ -154,7 +167,7 @@ func cmdC03Seq(args []string) error {
 	}
 	rng := rand.New(rand.NewSource(*seed))
 	for i := 0; i < *nrand; i++ {
-		ctor := rng.Intn(3)
+		ctor := rng.Intn(5)
 		l := *maxlen + 1 + rng.Intn(30)
 		ops := make([]int, l)
 		// mostly reads first so that the decision falls at a random place
@@ -207,7 +220,7 @@ func cmdC03Conc(args []string) error {
 		rt.Perturb("message.ack.unlock", 0.3)
 		rt.Perturb("message.nack.unlock", 0.3)
 		rt.Perturb("c03.inv", 0.3)
-		ctor := rng.Intn(3)
+		ctor := rng.Intn(5)
 		nthreads := 2 + rng.Intn(15)
 		if rng.Intn(3) == 0 {
 			nthreads = 2 + rng.Intn(3)
@@ -357,3 +370,65 @@ func cmdC03Copy(args []string) error {
 }
 
 func init() { register("c03copy", cmdC03Copy) }
+
+// c03life: channels obtained from a message stay what they were for ever, whatever happens to
+// OTHER messages created later (no state is shared between messages): every (channel, expected
+// closed?) pair ever observed is kept and re-read after the whole sequence.
+func cmdC03Life(args []string) error {
+	fs, out, seed := newFlags("c03life")
+	n := fs.Int("n", 400, "messages")
+	fs.Parse(args)
+	rng := rand.New(rand.NewSource(*seed))
+	type obs struct {
+		ch     <-chan struct{}
+		closed bool
+		what   string
+	}
+	var all []obs
+	isClosed := func(ch <-chan struct{}) bool {
+		if ch == nil {
+			return false
+		}
+		select {
+		case <-ch:
+			return true
+		default:
+			return false
+		}
+	}
+	type result struct {
+		Messages int      `json:"messages"`
+		Checked  int      `json:"checked"`
+		Wrong    []string `json:"wrong"`
+	}
+	res := result{Wrong: []string{}}
+	for i := 0; i < *n; i++ {
+		m := c03NewMsg([]int{0, 0, 1, 3}[rng.Intn(4)])
+		before := rng.Intn(2) == 0
+		var a, nk <-chan struct{}
+		if before {
+			a, nk = m.Acked(), m.Nacked()
+		}
+		ack := rng.Intn(2) == 0
+		if ack {
+			m.Ack()
+		} else {
+			m.Nack()
+		}
+		if !before {
+			a, nk = m.Acked(), m.Nacked()
+		}
+		all = append(all, obs{a, ack, fmt.Sprintf("Acked() of message %d (%s, channels taken %s settling)", i, map[bool]string{true: "acked", false: "nacked"}[ack], map[bool]string{true: "before", false: "after"}[before])})
+		all = append(all, obs{nk, !ack, fmt.Sprintf("Nacked() of message %d (%s, channels taken %s settling)", i, map[bool]string{true: "acked", false: "nacked"}[ack], map[bool]string{true: "before", false: "after"}[before])})
+		res.Messages++
+	}
+	for _, o := range all {
+		res.Checked++
+		if isClosed(o.ch) != o.closed && len(res.Wrong) < 5 {
+			res.Wrong = append(res.Wrong, fmt.Sprintf("%s: closed=%v, expected %v after %d later messages were created and settled", o.what, isClosed(o.ch), o.closed, *n))
+		}
+	}
+	return writeJSON(*out, res)
+}
+
+func init() { register("c03life", cmdC03Life) }
